@@ -1,0 +1,13 @@
+//go:build !verif
+
+package bbolt
+
+import "go.etcd.io/bbolt/internal/common"
+
+func (db *DB) verifWriteAt(b []byte, off int64) (int, error) { return db.file.WriteAt(b, off) }
+
+func (db *DB) verifEvent(name string, txid common.Txid) {}
+
+func (db *DB) verifMetaEvent(m *common.Meta) {}
+
+func (db *DB) verifAlloc(txid common.Txid, pgid common.Pgid, n int, fromFree bool) {}
